@@ -906,6 +906,25 @@ pub fn gen_c09(rng: &mut Rng, tier: Tier) -> NetProgram {
             }
         }
     }
+    // modules that differ only in where they live: every module moves into a box of its own and all get the same name
+    // (box0.node, box1.node, ...): whatever is remembered about "the module" must not go by its local name
+    if rng.chance(1, 4) {
+        // (a parent has to precede its children in the module list: the boxes go to the front, all indices move up by n)
+        let n = prog.modules.len();
+        let mut all: Vec<ModSpec> = (0..n).map(|i| ModSpec { name: format!("box{i}"), parent: -1, stages: 1, panic_at: 255, ..Default::default() }).collect();
+        for (i, mut m) in std::mem::take(&mut prog.modules).into_iter().enumerate() {
+            m.parent = i as i32;
+            m.name = "node".into();
+            all.push(m);
+        }
+        prog.modules = all;
+        for l in &mut prog.links {
+            l.am += n as u32;
+            l.bm += n as u32;
+        }
+        let old: Vec<u32> = prog.order.iter().map(|x| x + n as u32).collect();
+        prog.order = (0..n as u32).chain(old).collect();
+    }
     prog
 }
 
